@@ -2,6 +2,7 @@ package main
 
 import (
 	"fmt"
+	"math/rand"
 	"strings"
 	"sync"
 	"sync/atomic"
@@ -129,7 +130,37 @@ func runC18(c *CaseCtx) {
 	ds := cfg.Mode == 0
 	u := defaultUniverse(r, 1, 6, ds)
 	u.KVKeys = append(u.KVKeys, []byte("seq"))
+	// keys that the script writes in ascending order, one every few transactions: the key range of the bucket keeps
+	// growing (sparse mode rewrites its range metadata on each of those commits)
+	nGrow := 0
+	for i := 0; i < 40; i++ {
+		u.KVKeys = append(u.KVKeys, []byte(fmt.Sprintf("\xffw%03d", i)))
+	}
+	growBase := len(u.KVKeys) - 40
 	dir := c.Dir("db")
+	// delays at the writers' file operations (writes, syncs, creating opens) and at the yield points: a Backup that is
+	// waiting for the lock gets in wherever a writer lets go of it, also between a commit's unlock and any file
+	// operation the commit might still have to do
+	y := &yielder{p: []float64{0.05, 0.2}[r.Intn(2)], rng: rand.New(rand.NewSource(r.Int63()))}
+	nutsdb.VerifSetYieldHook(y.maybe)
+	nutsdb.VerifSetFSHook(func(op, path string, off int64, b []byte) (bool, int, error) {
+		if strings.HasPrefix(path, dir) && (op == "write" || op == "sync" || op == "open") {
+			y.maybe("fs." + op)
+			if op == "open" && (strings.Contains(path, "/meta/") || strings.Contains(path, "/bpt/")) {
+				// index metadata files are (re)written last in a commit and copied last by a Backup: now and then a
+				// writer is held up there for as long as a whole copy takes
+				y.mu.Lock()
+				long := y.rng.Intn(4) == 0
+				y.mu.Unlock()
+				if long {
+					time.Sleep(4 * time.Millisecond)
+				}
+			}
+		}
+		return false, 0, nil
+	})
+	defer nutsdb.VerifSetYieldHook(nil)
+	defer nutsdb.VerifSetFSHook(nil)
 	db, err := openNoPanic(cfg.Options(dir))
 	if err != nil {
 		c.Violate("open-failed:"+errClass(err.Error()), class, "Open failed: "+err.Error())
@@ -163,6 +194,10 @@ func runC18(c *CaseCtx) {
 				continue
 			}
 			ops = append(ops, o)
+		}
+		if i%3 == 1 && nGrow < 40 {
+			ops = append(ops, Op{K: "Put", B: u.Buckets[0], Key: u.KVKeys[growBase+nGrow], Val: []byte(fmt.Sprintf("g%d", nGrow))})
+			nGrow++
 		}
 		ops = append(ops, Op{K: "Put", B: u.Buckets[0], Key: []byte("seq"), Val: []byte(fmt.Sprint(i + 1))})
 		t.Ops = ops
